@@ -52,7 +52,7 @@ def _confirm(prop, name, ob, fn):
         return dict(reproduced=None, path=fn, detail="replay program timed out")
     with open(fn, "a") as f:
         f.write("# native replay: " + " ".join(args) + "\n" + r.stdout[-6000:] + "\n")
-    accept = {"C05": ("C05", "C07"), "C07": ("C07", "C05"), "C08": ("C08",), "C17": ("C17",), "C18": ("C18", "C07", "C05")}.get(prop, (prop,))
+    accept = {"C05": ("C05", "C07"), "C07": ("C07", "C05"), "C08": ("C08",), "C17": ("C17",), "C18": ("C18", "C07", "C05"), "C20": ("C20", "C07")}.get(prop, (prop,))
     ms = list(re.finditer(r"^FAIL (C\d\d(?:/C\d\d)*) .*$", r.stdout, re.M))
     if r.returncode == 1 and ms:
         for m in ms:
